@@ -41,7 +41,7 @@ type c13Plan struct {
 	Status   int         `json:"status"`
 	RHeaders []c13Header `json:"rheaders"`
 	RBodyLen int         `json:"rbody_len"`
-	RFraming string      `json:"rframing"` // cl | chunked | close
+	RFraming string      `json:"rframing"` // cl | chunked | chunked-trailer (a trailer field after the last chunk) | close
 	BufReq   bool        `json:"buf_req"`
 	BufResp  bool        `json:"buf_resp"`
 	Early    bool        `json:"early"` // the target sends an interim 103 Early Hints response first
@@ -109,7 +109,7 @@ func c13Gen(t *rapid.T) c13Plan {
 		p.RHeaders = c13AddHeader(p.RHeaders, rapid.SampledFrom(c13RespHeaders).Draw(t, "rheader"))
 	}
 	p.RBodyLen = rapid.SampledFrom([]int{0, 1, 100, 4096, 40000, 70000}).Draw(t, "rbody-len")
-	p.RFraming = rapid.SampledFrom([]string{"cl", "chunked", "close"}).Draw(t, "rframing")
+	p.RFraming = rapid.SampledFrom([]string{"cl", "chunked", "chunked-trailer", "close"}).Draw(t, "rframing")
 	p.BufReq = rapid.IntRange(0, 4).Draw(t, "buf-req") == 0
 	p.BufResp = rapid.IntRange(0, 4).Draw(t, "buf-resp") == 0
 	p.Early = rapid.IntRange(0, 4).Draw(t, "early") == 0
@@ -228,7 +228,10 @@ func c13Run(t *testing.T, p c13Plan) (res vfResult) {
 			} else {
 				script = append(script, vfRawStep{Kind: "bytes", Data: head.String() + string(rbody)})
 			}
-		case "chunked":
+		case "chunked", "chunked-trailer":
+			if p.RFraming == "chunked-trailer" {
+				head.WriteString("Trailer: X-Vf-Checksum\r\n")
+			}
 			head.WriteString("Transfer-Encoding: chunked\r\n\r\n")
 			var sb strings.Builder
 			sb.WriteString(head.String())
@@ -236,7 +239,11 @@ func c13Run(t *testing.T, p c13Plan) (res vfResult) {
 				end := min(off+5000, len(rbody))
 				fmt.Fprintf(&sb, "%x\r\n%s\r\n", end-off, rbody[off:end])
 			}
-			sb.WriteString("0\r\n\r\n")
+			if p.RFraming == "chunked-trailer" {
+				sb.WriteString("0\r\nX-Vf-Checksum: c0ffee\r\n\r\n")
+			} else {
+				sb.WriteString("0\r\n\r\n")
+			}
 			script = append(script, vfRawStep{Kind: "bytes", Data: sb.String()})
 		default:
 			head.WriteString("Connection: close\r\n\r\n")
@@ -468,7 +475,13 @@ func c13Run(t *testing.T, p c13Plan) (res vfResult) {
 		sort.Strings(added)
 		for _, name := range added {
 			switch name {
-			case "Date", "Content-Length", "Transfer-Encoding", "Connection":
+			case "Date", "Content-Length", "Transfer-Encoding", "Connection", "Trailer":
+			case "X-Vf-Checksum":
+				// the target's trailer field: with response buffering it reaches the client among the headers
+				if p.RFraming != "chunked-trailer" {
+					res.failf("response-header-added", "%s: client received header %s: %q which the target did not send", desc, name, resp.Resp.Header[name])
+					return
+				}
 			case "Content-Type":
 				// net/http's server sniffs a Content-Type when the handler (here: ReverseProxy) set none
 				res.label("licence:sniffed-content-type")
@@ -484,6 +497,19 @@ func c13Run(t *testing.T, p c13Plan) (res vfResult) {
 		if resp.BodyErr != nil || !bytes.Equal(resp.Body, wantBody) {
 			res.failf(cut("response-body-changed"), "%s: client received %d body bytes (err=%v), target sent %d (equal=%v)", desc, len(resp.Body), resp.BodyErr, len(wantBody), bytes.Equal(resp.Body, wantBody))
 			return
+		}
+		if p.RFraming == "chunked-trailer" && wantBody != nil && resp.Resp != nil {
+			// the trailer field the target announced and sent after its last chunk is part of its response (with response
+			// buffering the proxy hands it over among the headers, which is accepted)
+			got := resp.Resp.Trailer.Get("X-Vf-Checksum")
+			if got == "" && p.BufResp {
+				got = resp.Resp.Header.Get("X-Vf-Checksum")
+			}
+			if got != "c0ffee" {
+				res.failf("response-trailer-lost", "%s: the target sent the trailer field X-Vf-Checksum: c0ffee after its body, the client received %q (trailers %v)", desc, got, resp.Resp.Trailer)
+				return
+			}
+			res.label("response-trailer")
 		}
 		synctest.Wait() // the client has its response; the handler's deferred clean-up may still be running
 		if len(w.spillFiles()) != 0 {
